@@ -87,6 +87,20 @@ check("C22", "metamorphic property test: one effectful operation at a generated 
       "Templates are fixed shapes combined by the generator (10 positions x 5 effects x wrapper sequences x prefixes); default arguments as effect positions are not generated.",
       "DESIGN.md §3 C22")
 
+check("C05", "metamorphic property test: accepted control program vs the same program with one injected definite static error",
+      "A fragment program the checker accepts is mutated at one expression position chosen uniformly among all positions (any nesting depth: function/lambda bodies, default arguments, loop and branch bodies, arguments, list elements, interpolations) by one of 17 definite errors (operators without implementation, wrong arity, unknown keyword, argument of a disjoint class, undefined name/callee, absent attribute); the mutant must yield >= 1 error diagnostic, and for a sample `erg run` must exit non-zero without output.",
+      "The error table is restricted to expressions that are errors under every typing of the fragment.",
+      "DESIGN.md §3 C05")
+check("C24", "property test: injected undefined name with a generator-known text, every diagnostic's location validated against the source",
+      "Fragment programs with wild strings get an undefined name injected at a uniformly chosen expression position; every diagnostic must carry lines inside the source and columns inside its line, the undefined-name diagnostic must highlight exactly the name, and rendering each diagnostic (Display) must not panic.",
+      "Columns counted in characters; diagnostics without column information are only line-checked.",
+      "DESIGN.md §3 C24")
+
+check("C07", "property test / fuzzing of the whole compiler pipeline in crash-isolated workers (generated well-typed and ill-typed programs, mutated corpus)",
+      "Fragment programs, the same with 1-3 positions replaced by syntactically valid but ill-typed expressions, and corpus programs cut/spliced at random points (kept if they still parse) are compiled in-process at generated opt_level 0-3 and target 3.7-3.11; a panic, an abort of the worker process (confirmed in a fresh process), a hang or an internal-compiler-error diagnostic is a violation. One signature per panic site.",
+      "The recorded crash families (recursion-limit panics in compare.rs / unify.rs, a stack overflow, an unserialisable Ellipsis constant, lower_class_def) are known findings keyed by panic site; the abort signature `abort:signal 6` is coarse (any stack overflow).",
+      "DESIGN.md §3 C07")
+
 NOT_APPLICABLE = {}
 
 def main():
